@@ -1165,3 +1165,70 @@ pub fn c10_macro_errors() -> Vec<(String, String)> {
     }
     out
 }
+
+/// C17 end to end, "a step is matched against the definitions registered for its keyword":
+/// definitions registered through `runner::Basic::given / when / then`, also on a clone of a
+/// runner and on a runner whose clone is still alive (a template runner specialised per
+/// suite), are all there when the steps are looked up; each step has exactly one and passes.
+pub fn c17_runner_registration() -> Vec<(String, String)> {
+    use cucumber::runner::Basic;
+    fn noop(_: &mut ZooA, _: cucumber::step::Context) -> futures::future::LocalBoxFuture<'_, ()> {
+        Box::pin(async {})
+    }
+    let re = |p: &str| regex::Regex::new(p).expect("regex");
+    let text = "Feature: R\n  Scenario: reg\n    Given reg one\n    When reg two\n    Then reg three\n    Then reg one\n";
+    let mut out = Vec::new();
+    for variant in ["fresh", "on-clone-sibling-alive", "on-original-clone-alive", "steps-then-clone"] {
+        let feat = gherkin::Feature::parse(text, gherkin::GherkinEnv::default()).expect("feature");
+        let base = Basic::<ZooA>::default().max_concurrent_scenarios(Some(1)).given(re("^reg one$"), noop);
+        let (runner, keep) = match variant {
+            "fresh" => (base.when(re("^reg two$"), noop).then(re("^reg three$"), noop), None),
+            "on-clone-sibling-alive" => {
+                let r = base.clone().when(re("^reg two$"), noop).then(re("^reg three$"), noop);
+                (r, Some(base))
+            }
+            "on-original-clone-alive" => {
+                let keep = base.clone();
+                (base.when(re("^reg two$"), noop).then(re("^reg three$"), noop), Some(keep))
+            }
+            _ => {
+                let coll = cucumber::step::Collection::<ZooA>::new().given(None, re("^reg one$"), noop);
+                let b = Basic::<ZooA>::default().max_concurrent_scenarios(Some(1)).steps(coll);
+                let keep = b.clone();
+                (b.when(re("^reg two$"), noop).then(re("^reg three$"), noop), Some(keep))
+            }
+        };
+        let prev = std::panic::take_hook();
+        std::panic::set_hook(Box::new(|_| {}));
+        let run = std::panic::catch_unwind(AssertUnwindSafe(|| {
+            futures::executor::block_on(
+                cucumber::Cucumber::<ZooA, _, (), _, _, cucumber::cli::Empty>::custom(ZParser(vec![feat]), runner, ZRec::default())
+                    .with_cli(cucumber::cli::Opts::<cucumber::cli::Empty, cucumber::runner::basic::Cli, cucumber::cli::Empty, cucumber::cli::Empty> {
+                        re_filter: None,
+                        tags_filter: None,
+                        parser: cucumber::cli::Empty,
+                        runner: cucumber::runner::basic::Cli::default(),
+                        writer: cucumber::cli::Empty,
+                        custom: cucumber::cli::Empty,
+                    })
+                    .run(()),
+            )
+        }));
+        std::panic::set_hook(prev);
+        drop(keep);
+        let Ok(w) = run else {
+            out.push(("runner-registration".into(), format!("{variant}: the run panicked")));
+            continue;
+        };
+        let got: Vec<&String> = w.0.iter().filter(|l| l.starts_with("reg: reg ") && !l.ends_with(" started")).collect();
+        // `Then reg one` has no definition under Then (it is registered under Given only)
+        let want = ["reg: reg one passed", "reg: reg two passed", "reg: reg three passed", "reg: reg one skipped"];
+        if got.iter().map(|s| s.as_str()).collect::<Vec<_>>() != want {
+            out.push((
+                "runner-registration".into(),
+                format!("definitions registered through runner::Basic::given/when/then ({variant}): step results {got:?}, expected {want:?}"),
+            ));
+        }
+    }
+    out
+}
